@@ -16,11 +16,19 @@ pub mod reuse;
 pub mod spec;
 #[cfg(feature = "hooks")]
 pub mod tables;
+#[cfg(feature = "hooks")]
+pub mod headers;
+#[cfg(feature = "hooks")]
+pub mod window;
 
 pub fn dispatch(engine: &str, opts: &Opts) -> Option<Run> {
     match engine {
         #[cfg(feature = "hooks")]
         "tables" => Some(tables::run(opts)),
+        #[cfg(feature = "hooks")]
+        "headers" => Some(headers::run(opts)),
+        #[cfg(feature = "hooks")]
+        "window" => Some(window::run(opts)),
         #[cfg(feature = "hooks")]
         "spec" => Some(spec::run(opts)),
         #[cfg(feature = "hooks")]
